@@ -733,6 +733,16 @@ theorem reserve1_adds (acc : List Import) (i : Import)
     rw [List.any_eq_false]; intro j hj; simpa using ha j hj
   simp [h1, h2, reservedOf]
 
+/-- an import whose alias is exempt from the collision test (regenerated list: `_`, `.`) is reserved as soon as its
+path is free - whatever aliases are taken -/
+theorem reserve1_adds_exempt (acc : List Import) (i : Import)
+    (hp : ∀ j ∈ acc, j.path ≠ i.path) (he : collisionExempt.contains (userLocal i) = true) : reservedOf i ∈ reserve1 acc i := by
+  unfold reserve1 reserve1With
+  have h1 : (acc.any fun x => x.path == i.path) = false := by
+    rw [List.any_eq_false]; intro j hj; simpa using hp j hj
+  have he' : userLocal i ∈ collisionExempt := by simpa using he
+  simp [h1, he', reservedOf]
+
 /-- the user's import is one of the template's own imports, bound to the same name -/
 def isAmbient (i : Import) : Bool := ambient.any fun a => a.path == i.path && a.alias == userLocal i
 
@@ -764,6 +774,22 @@ theorem reserve_keeps (user : List Import) (hnp : (user.map (·.path)).Nodup) (h
       have hnd := (List.nodup_append.mp hnn).2.2
       intro e
       exact hnd (userLocal x) (List.mem_map.mpr ⟨x, hx, rfl⟩) (userLocal i) (by simp) (by simpa [reservedOf] using e)
+
+/-- a user import with an exempt alias whose path is taken neither by the template nor by another user import is reserved -/
+theorem reserve_keeps_exempt (user : List Import) (hnp : (user.map (·.path)).Nodup)
+    (i : Import) (hi : i ∈ user) (hfp : ∀ a ∈ ambient, a.path ≠ i.path)
+    (he : collisionExempt.contains (userLocal i) = true) : reservedOf i ∈ reserve user := by
+  obtain ⟨pre, post, rfl⟩ := List.append_of_mem hi
+  unfold reserve
+  rw [List.foldl_append]
+  refine foldl_reserve1_mono post _ _ (reserve1_adds_exempt _ i ?_ he)
+  intro j hj
+  rcases foldl_reserve1_origin pre ambient j hj with hamb | ⟨x, hx, rfl⟩
+  · exact hfp j hamb
+  · simp only [List.map_append, List.map_cons] at hnp
+    have hnd := (List.nodup_append.mp hnp).2.2
+    intro e
+    exact hnd x.path (List.mem_map.mpr ⟨x, hx, rfl⟩) i.path (by simp) (by simpa [reservedOf] using e)
 
 theorem ambient_subset_reserve (user : List Import) (a : Import) (h : a ∈ ambient) : a ∈ reserve user :=
   foldl_reserve1_mono user ambient a h
